@@ -5,7 +5,7 @@ OPTS = [dict(), dict(max_m=2, max_t=4, p_nonexcl=0.2), dict(p_rel=1.0), dict(p_s
 
 
 def run(rep):
-    core_check(rep, "C07", [dict(o) for o in OPTS], 96, 1600, nontrivial_key="impl_cycles_with_ready_not_run")
+    core_check(rep, "C07", [dict(o) for o in OPTS], 64, 1600, nontrivial_key="impl_cycles_with_ready_not_run")
     rep.coverage["rule"] = ("random designs from vlib/coregen.py's grammar built with the real API, every valuation of the "
                             "control inputs (or random ones when there are many), both directions bound by TxnCoreTrace; "
                             "clause NoWastedCycle with the specification's conflict relation; distinct_nontrivial = cycles in which a ready+runnable transaction did not run")
